@@ -309,7 +309,7 @@ where
         });
     }
 
-    let original = original.into_iter();
+    let mut original = original.into_iter();
     let mut recovery = recovery.into_iter();
 
     let (shard_bytes, first_recovery) = if let Some(first_recovery) = recovery.next() {
@@ -317,7 +317,21 @@ where
     } else {
         // NO RECOVERY SHARDS
 
-        let original_received_count = original.count();
+        // Validate the given original shards exactly like
+        // `ReedSolomonDecoder` does when recovery shards are present.
+        let mut original_received_count = 0;
+        if let Some((index, first_original)) = original.next() {
+            let shard_bytes = first_original.as_ref().len();
+            let mut decoder = ReedSolomonDecoder::new(original_count, recovery_count, shard_bytes)?;
+
+            decoder.add_original_shard(index, first_original)?;
+            original_received_count += 1;
+            for (index, original) in original {
+                decoder.add_original_shard(index, original)?;
+                original_received_count += 1;
+            }
+        }
+
         if original_received_count == original_count {
             // Nothing to do, original data is complete.
             return Ok(HashMap::new());
